@@ -79,15 +79,15 @@ Qed.
 
 End Term3.
 
-Theorem find_base_fixed_total s1 s2 fuel wfuel :
+Theorem find_base_total s1 s2 fuel wfuel :
   (length (all_pairs s1 s2) < fuel)%nat ->
   (length (all_pairs s1 s2) * S (max_arity s2) + 1 < wfuel)%nat ->
-  find_base_fixed s1 s2 fuel wfuel = Nothing \/ exists d1 d2, find_base_fixed s1 s2 fuel wfuel = Found d1 d2.
+  find_base s1 s2 fuel wfuel = Nothing \/ exists d1 d2, find_base s1 s2 fuel wfuel = Found d1 d2.
 Proof.
-  intros Hf Hw. pose proof (fixed_base_never_raises s1 s2 fuel wfuel) as Hnr.
-  assert (Hnf : find_base_fixed s1 s2 fuel wfuel <> NoFuel).
-  { unfold find_base_fixed.
-    pose proof (find_base_total s1 s2 fuel Hf) as Htot. unfold find_base in Htot.
+  intros Hf Hw. pose proof (find_base_never_raises s1 s2 fuel wfuel) as Hnr.
+  assert (Hnf : find_base s1 s2 fuel wfuel <> NoFuel).
+  { unfold find_base.
+    pose proof (old_base_total s1 s2 fuel Hf) as Htot. unfold find_base_old in Htot.
     pose proof (first_search_sound s1 s2 fuel) as Hs.
     destruct (find s1 s2 fuel (s_root s1) (s_root s2) init_fstate) as [[[|] st]| |e] eqn:E.
     - destruct Htot as [Hn|[e1 [e2 Hfd]]].
@@ -104,7 +104,7 @@ Proof.
     - discriminate.
     - destruct Htot as [Hn|[e1 [e2 Hfd]]]; discriminate.
     - discriminate. }
-  destruct (find_base_fixed s1 s2 fuel wfuel) as [|e1 e2|c|]; eauto.
+  destruct (find_base s1 s2 fuel wfuel) as [|e1 e2|c|]; eauto.
   - exfalso. eapply Hnr; eauto.
   - contradiction.
 Qed.
